@@ -10,5 +10,7 @@ RULES = {"C17.a"}
 
 def check(ctx):
     casts.analyze(ctx, RULES)
-    from .common import cache_foundation
+    # "compiles correctly": the size-independent side conditions of the pipeline are part of this property too
+    from .common import cache_foundation, language_foundation
+    language_foundation(ctx)
     cache_foundation(ctx)
